@@ -435,7 +435,8 @@ char *g_stacks[MAXT];
 
 void setup_scenario(Cursor &c)
 {
-    T = 2 + c.u8() % 3;
+    uint8_t hb = c.u8();
+    T = 2 + (hb & 0x7f) % 3;
     g_book = g_managed = nullptr;
     g_clr_count = g_managed_frees = g_book_frees = 0;
     g_destroy_started = false;
@@ -447,14 +448,14 @@ void setup_scenario(Cursor &c)
     cur = -1;
     uint8_t cfg[MAXT], len[MAXT], ops[MAXT][4];
     for (int t = 0; t < MAXT; t++) { cfg[t] = c.u8(); len[t] = c.u8(); for (int i = 0; i < 4; i++) ops[t][i] = c.u8(); }
-    g_has_clr = true;
+    g_has_clr = !(hb & 0x80);      // memory without a clear callback (what the library's own arrays use) is a scenario too
     // the allocation, made by the main thread before the others start
     cstl_shared_ptr_t root;
     cstl_shared_ptr_init(&root);
     g_managed_sz = 1000;
     g_record_events = true;
     events_clear();
-    LIB(cstl_shared_ptr_alloc(&root, g_managed_sz, clr_cb));
+    LIB(cstl_shared_ptr_alloc(&root, g_managed_sz, g_has_clr ? clr_cb : nullptr));
     for (auto &e : *g_events) if (e.kind == 'm') { if (e.sz >= 1000) g_managed = e.p; else g_book = e.p; }
     g_record_events = false;
     if (!g_managed || !g_book) { g_out_of_scope = true; return; }
@@ -494,7 +495,7 @@ void setup_scenario(Cursor &c)
 
 void final_checks()
 {
-    CHECK(g_clr_count == 1, "C06.clear.once", "clear callback ran %d times", g_clr_count);
+    CHECK(g_clr_count == (g_has_clr ? 1 : 0), "C06.clear.once", "clear callback ran %d times", g_clr_count);
     CHECK(g_managed_frees == 1, "C06.free.once", "managed memory freed %d times", g_managed_frees);
     CHECK(g_book_frees == 1, "C06.book.once", "bookkeeping block freed %d times", g_book_frees);
     CHECK(lib_live_count() == 0, "C06.leak", "%zu library allocations still live after every thread let go", lib_live_count());
@@ -560,7 +561,7 @@ void vf_run(const uint8_t *data, size_t len)
 void vf_gen(Rng &r, std::vector<uint8_t> &out)
 {
     // random scenario + PCT-like schedule (mostly "continue", a few preemptions)
-    out.push_back(r.byte());
+    out.push_back((uint8_t)(r.below(120) | (r.chance(1, 4) ? 0x80 : 0)));      // threads; 1 in 4 without a clear callback
     for (int t = 0; t < MAXT; t++) {
         out.push_back(r.byte());
         out.push_back(r.byte());
@@ -677,13 +678,15 @@ int engine_g5a(const std::string &catalogue, uint64_t cap, const std::string &ou
         auto cf3 = std::vector<std::vector<std::pair<int, int>>>{
             {{1, 0}, {0, 1}, {0, 1}}, {{1, 1}, {0, 1}, {1, 0}}, {{1, 0}, {1, 1}, {0, 1}}, {{0, 1}, {0, 1}, {0, 1}}, {{1, 1}, {1, 1}, {1, 1}}};
         for (auto &cf : cf3) for (auto &s0 : scripts1) for (auto &s1 : scripts1) for (auto &s2 : scripts1) {
-            std::vector<uint8_t> s;
-            s.push_back(1);   // T = 3
-            put_thread(s, cf[0].first, cf[0].second, s0);
-            put_thread(s, cf[1].first, cf[1].second, s1);
-            put_thread(s, cf[2].first, cf[2].second, s2);
-            put_thread(s, 0, 0, {});
-            scen.push_back(s);
+            for (int noclr = 0; noclr < 2; noclr++) {
+                std::vector<uint8_t> s;
+                s.push_back((uint8_t)(1 | (noclr ? 0x80 : 0)));   // T = 3; with and without a clear callback
+                put_thread(s, cf[0].first, cf[0].second, s0);
+                put_thread(s, cf[1].first, cf[1].second, s1);
+                put_thread(s, cf[2].first, cf[2].second, s2);
+                put_thread(s, 0, 0, {});
+                scen.push_back(s);
+            }
         }
     } else if (catalogue == "four") {
         std::vector<std::vector<int>> sc = {{O_RESET}, {LOCKF}, {O_WEAK_RESET}};
